@@ -479,14 +479,14 @@ Proof.
   - eapply TG_incl; [apply of_cat_incl|exact Htg].
 Qed.
 Theorem generic_hide_exact L T : id_inj L -> TG L ->
-  generic_hide_hit matches pr (tags_with_set h (blocker_new h L) T) = spec_generic_hide matches L.
+  generic_hide_hit matches pr (tags_with_set h (blocker_new h L) T) = spec_generic_hide matches L T.
 Proof.
-  intros Hinj Htg. unfold generic_hide_hit, spec_generic_hide, tags_with_set, blocker_new. cbn [b_generic_hide].
-  fold (found (of_cat CGenericHide L) []). change (act matches) with (hit matches).
+  intros Hinj Htg. unfold generic_hide_hit, spec_generic_hide, tags_with_set, blocker_new. cbn [b_generic_hide b_tags].
+  fold (found (of_cat CGenericHide L) T). change (act matches) with (hit matches).
   pose proof (of_cat_incl CGenericHide L) as I.
-  destruct (found (of_cat CGenericHide L) []) eqn:E.
-  - symmetry. apply (found_iff L _ [] I Hinj Htg). congruence.
-  - symmetry. apply (found_none L _ [] I Hinj Htg). exact E.
+  destruct (found (of_cat CGenericHide L) T) eqn:E.
+  - symmetry. apply (found_iff L _ T I Hinj Htg). congruence.
+  - symmetry. apply (found_none L _ T I Hinj Htg). exact E.
 Qed.
 
 End Lookup.
